@@ -196,7 +196,9 @@ theorem same_message_id (cfgA cfgB : Cfg) (hkind : cfgA.kind = cfgB.kind) (hk : 
 theorem retryMsgId_eq (src dest : Nat) (s e : Int) : retryMsgId src dest s e = "retry-" ++ msgId src dest s e := by
   simp [retryMsgId, msgId, String.append_assoc]; rfl
 
-/-- RetryV2 ids, Substrate session ids and BTC per-input session ids have no argument a relayer could disagree on:
+/-- DEFINITIONAL (each conjunct holds by `rfl` once equal inputs are substituted; the first is `x = x`): recorded only
+    to display the argument lists of the formatters.
+    RetryV2 ids, Substrate session ids and BTC per-input session ids have no argument a relayer could disagree on:
     they are functions of the retry event / the delivery's message id / the input's sighash alone. Two relayers that
     see the same event, derive the same message id (`same_message_id`) or build the same transaction therefore
     derive the same identifiers. -/
@@ -214,7 +216,10 @@ theorem same_sub_session_id (cfgA cfgB : Cfg) (hkind : cfgA.kind = cfgB.kind) (h
     subSessionId (msgId src dest c1.s c1.e) = subSessionId (msgId src dest c2.s c2.e) := by
   rw [(same_message_id cfgA cfgB hkind hk hpos wA wB stA stB lsA lsB c1 c2 h1 h2 b hb1 hb2 src dest).1]
 
-/-- … and the same signing session ids (batch index / resource id appended to the message id) -/
+/-- DEFINITIONAL (congruence of the formatters): … and the same signing session ids (batch index / resource id appended to
+    the message id). NOTE for the EVM executor: the batch index of a proposal — hence its session id — also depends on
+    the relayer's OWN `IsProposalExecuted` answers and on its gas configuration (cap, transfer gas); two relayers agree
+    on session ids only if those agree (see `evm_session_ids_agree`, which assumes them equal). -/
 theorem same_session_id (m1 m2 : String) (h : m1 = m2) (i : Nat) (r : String) :
     evmSessionId m1 i = evmSessionId m2 i ∧ btcSessionId m1 r = btcSessionId m2 r := by
   subst h; exact ⟨rfl, rfl⟩
@@ -320,7 +325,9 @@ example :
 example : groupLoop 1 10 14 [⟨2, 0, false⟩, ⟨3, 1, false⟩, ⟨2, 2, true⟩, ⟨2, 3, false⟩]
     = [(2, [(0, "1-2-10-14"), (3, "1-2-10-14")]), (3, [(1, "1-3-10-14")])] := by decide
 
-/-- **session ids of the EVM executor.** Two relayers that are handed the same delivery (same message id, same
+/-- **session ids of the EVM executor.** The first conjunct (`a = b`) is DEFINITIONAL — both sides are the same term: it
+    only records that `signed` has no other inputs; the content is the distinctness and partition conjuncts (from C14).
+    Two relayers that are handed the same delivery (same message id, same
     proposals, same executed answers, same gas configuration) sign the same batches under the same session ids:
     `signed` is a function of exactly these inputs, its ids are pairwise distinct and positional (C14). What ties the
     real `Execute` to this function — in particular that the id is built from the batch's OWN index and not from shared
